@@ -1581,7 +1581,9 @@ REGISTRY = {
                    "cancelled / not offered courses, beyond max_size, below min_size) and the three option sets with an ignore flag; plus an "
                    "independent reading of the raw export for 'ignored registrations are not mentioned, their courses stay active, cancelled "
                    "courses are not mentioned'", extra_fn=c11_extra), allow_axioms=(),
-        explanation="C11 (Cde theorems): the adapted limits reserve the places of ignored attendees (new + pre <= max(max, pre), min met counting both), "
+        explanation="C11_end_to_end: for every accepted export with canonical keys and every option set, the import side reads from the writer's whole document only "
+                    "participants and courses of the problem (ignored registrations / ignored cancelled courses are none of them) and finds every course with reserved places marked as taking place.  "
+                    "C11 (Cde theorems): the adapted limits reserve the places of ignored attendees (new + pre <= max(max, pre), min met counting both), "
                     "courses with ignored people are fixed and therefore written active, ignored registrations and ignored courses are not part of "
                     "the problem and hence never in the file (C11_ignored_not_participant, _problem_courses, _ignored_course_lookup, _reserved_places on "
                     "the reader specification that the transcription is proved to compute).  Real import files checked in Coq and against the raw export.",
